@@ -140,7 +140,17 @@ fn run_load(a: &[Sx]) -> (Sx, String) {
         Some(w) => Sx::tagged("expect", w.iter().map(|(id, o)| Sx::L(vec![oid_to_sx(*id), obj_to_sx(o)])).collect()),
         None => Sx::id("noexpect"),
     };
-    match Document::load_mem(&bytes) {
+    // watchdog: a Prev cycle must not hang the reader
+    let (tx, rx) = std::sync::mpsc::channel();
+    let b2 = bytes.clone();
+    std::thread::spawn(move || {
+        let _ = tx.send(Document::load_mem(&b2));
+    });
+    let loaded = match rx.recv_timeout(std::time::Duration::from_secs(20)) {
+        Ok(r) => r,
+        Err(_) => return (Sx::L(vec![Sx::tagged("timeout", vec![]), wsx]), "FAIL the reader did not terminate within 20 s".into()),
+    };
+    match loaded {
         Err(e) => (
             Sx::L(vec![Sx::tagged("err", vec![Sx::id(err_class(&e))]), wsx]),
             if want.is_some() { format!("FAIL history does not load: {}", e) } else { "ok".into() },
